@@ -107,6 +107,10 @@ type leaderController struct {
 	sessionManager SessionManager
 	log            *slog.Logger
 
+	// The commit offset found in the database when the controller was created (written once, before
+	// the WAL is opened): what CommitOffset() reports while there is no quorum tracker
+	dbCommitOffsetAtOpen int64
+
 	writeLatencyHisto       metric.LatencyHistogram
 	headOffsetGauge         metric.Gauge
 	commitOffsetGauge       metric.Gauge
@@ -152,12 +156,18 @@ func NewLeaderController(config Config, namespace string, shardId int64, rpcClie
 	lc.sessionManager = NewSessionManager(lc.ctx, namespace, shardId, lc)
 
 	var err error
-	if lc.wal, err = walFactory.NewWal(namespace, shardId, lc); err != nil {
+	if lc.db, err = kv.NewDB(namespace, shardId, kvFactory, config.NotificationsRetentionTime, time2.SystemClock); err != nil {
 		return nil, err
 	}
 
-	if lc.db, err = kv.NewDB(namespace, shardId, kvFactory, config.NotificationsRetentionTime, time2.SystemClock); err != nil {
-		return nil, err
+	// The WAL is opened after the commit offset is known: its recovery asks CommitOffset() to tell
+	// damage in the uncommitted tail (discarded) from damage to committed entries (an error)
+	if lc.dbCommitOffsetAtOpen, err = lc.db.ReadCommitOffset(); err != nil {
+		return nil, multierr.Append(err, lc.db.Close())
+	}
+
+	if lc.wal, err = walFactory.NewWal(namespace, shardId, lc); err != nil {
+		return nil, multierr.Append(err, lc.db.Close())
 	}
 
 	if lc.term, lc.termOptions, err = lc.db.ReadTerm(); err != nil {
@@ -1015,7 +1025,9 @@ func (lc *leaderController) CommitOffset() int64 {
 	if qat != nil {
 		return qat.CommitOffset()
 	}
-	return wal.InvalidOffset
+	// Not leading (in particular while the WAL is being opened): the commit offset the database
+	// held when this controller was created is a lower bound of the real one
+	return lc.dbCommitOffsetAtOpen
 }
 
 func (lc *leaderController) GetStatus(_ *proto.GetStatusRequest) (*proto.GetStatusResponse, error) {
